@@ -465,19 +465,22 @@ def optsParse (s : Str) : Except Err Opts :=
   | none => .error .optsBraces
   | some parts => .ok (parts.foldl optsAddPart [])
 
-/-- `Opts.format`: `key` for an empty value, else `key=value`; one `def=...` per definition -/
+/-- the text `Opts.format` writes for one value (`fmt`): `key` for an empty value, else `key=value` -/
+def optFmt1 (k : Str) : OptVal → Option Str
+  | .s v => some (if v.isEmpty then k else k ++ ['='] ++ v)
+  | .b true => some (k ++ ['=','T','r','u','e'])
+  | .b false => some (k ++ ['=','F','a','l','s','e'])
+  | .defs _ => none
+
+/-- one dict item: one `def=...` per definition of the `def` key, one text otherwise -/
+def optFmtEntry (p : Str × OptVal) : Option (List Str) :=
+  match p.2 with
+  | .defs vs => vs.mapM (optFmt1 p.1)
+  | v => (optFmt1 p.1 v).map (fun x => [x])
+
+/-- `Opts.format` -/
 def optsFormat (o : Opts) : Option Str :=
-  let fmt1 : Str → OptVal → Option Str := fun k v =>
-    match v with
-    | .s v => some (if v.isEmpty then k else k ++ ['='] ++ v)
-    | .b true => some (k ++ ['=','T','r','u','e'])
-    | .b false => some (k ++ ['=','F','a','l','s','e'])
-    | .defs _ => none
-  let fmt : Str × OptVal → Option (List Str) := fun p =>
-    match p.2 with
-    | .defs vs => vs.mapM (fmt1 p.1)
-    | v => (fmt1 p.1 v).map (fun x => [x])
-  (o.mapM fmt).map (fun ls => joinWith [',', ' '] ls.flatten)
+  (o.mapM optFmtEntry).map (fun ls => joinWith [',', ' '] ls.flatten)
 
 /-! ### printer (mnacpts.py: _arg_format, _netmake1) -/
 
